@@ -19,6 +19,15 @@ tie    : (T) translate/t_eig.py regenerates coq/gen/EigSelect.v from the current
 search : the same end-to-end decision procedures at the thorough budget on structured inputs
          (collinear, simplex, rank-deficient, large offset, duplicates) + small exhaustive integer
          tables for the matrix stage.
+wave 2 : (a) SCALED COPIES of every end-to-end case (table * 2^e, e in {-40,-30,-20,20,40}): factor_spec with tolerances
+             relative to |B| and the exact relation Y(2^e D) = 2^e Y(D) (Mds_scale_equivariance); exact stream on dyadic
+             tiny / huge scales;
+         (b) anisotropic exact-rank-d inputs (d >= 3, retained spectrum over up to 10 decades), dense and randomized,
+             through the extracted PER-ENTRY-tolerance factor specification (Mds_Spec_Wtol.factor_spec_wtol_b);
+         (c) the randomized front-end step by step: the harness prints the Gaussian test matrix the solver draws; a float
+             mirror of the modelled Gram-Schmidt loop gives the norms (F36 = its absolute cut-off fired; admissible
+             down-scales of the randomized stream); stream `rgs`: the EXTRACTED loop (Mds_Exec_Wave2.c05_rgs) against the
+             real call (span + small eigenproblem).
 """
 import hashlib
 import json
